@@ -61,32 +61,46 @@ Fixpoint dval_ind' (v : dval) : P v :=
 End Ind.
 
 (* ------------------------------------------------------------ numbers *)
-(* exact comparison of an int with a binary64 (CPython compares them exactly);
-   None when the float is NaN *)
-Definition cmp_z_float (z : Z) (f : float) : option comparison :=
+(* The exact value of a number: an int z is z * 2^0, a finite binary64 is its
+   signed mantissa times 2^exponent (read off Prim2SF), infinities are kept,
+   NaN has no value.  CPython compares ints and floats by their exact values;
+   that this holds of the host's float comparison is checked by the
+   correspondence runs (C02, C06, C07), not assumed in any theorem. *)
+Inductive exr := NegInf | Fin (m e : Z) | PosInf.
+
+Definition exr_cmp (x y : exr) : comparison :=
+  match x, y with
+  | NegInf, NegInf => Eq
+  | NegInf, _ => Lt
+  | _, NegInf => Gt
+  | PosInf, PosInf => Eq
+  | PosInf, _ => Gt
+  | _, PosInf => Lt
+  | Fin m1 e1, Fin m2 e2 =>
+    let e := Z.min e1 e2 in (m1 * 2 ^ (e1 - e)) ?= (m2 * 2 ^ (e2 - e))
+  end.
+
+Definition rank_float (f : float) : option exr :=
   match Prim2SF f with
   | S754_nan => None
-  | S754_infinity s => Some (if s then Gt else Lt)
-  | S754_zero _ => Some (z ?= 0)
-  | S754_finite s m e =>
-    let v := if s then Zneg m else Zpos m in
-    Some (if 0 <=? e then z ?= v * 2 ^ e else (z * 2 ^ (- e)) ?= v)
+  | S754_infinity s => Some (if s then NegInf else PosInf)
+  | S754_zero _ => Some (Fin 0 0)
+  | S754_finite s m e => Some (Fin (if s then Zneg m else Zpos m) e)
   end.
 
-Definition cmp_float (f g : float) : option comparison :=
-  match PrimFloat.compare f g with
-  | FEq => Some Eq | FLt => Some Lt | FGt => Some Gt | FNotComparable => None
+Definition rank (v : dval) : option exr :=
+  match v with
+  | DInt z => Some (Fin z 0)
+  | DDec f => rank_float f
+  | _ => None
   end.
 
-Definition is_nan (f : float) : bool := negb (PrimFloat.eqb f f).
+Definition is_nan (f : float) : bool := match rank_float f with None => true | Some _ => false end.
 
 (* numeric comparison of two numeric values; None if a NaN is involved or a value is not numeric *)
 Definition num_cmp (a b : dval) : option comparison :=
-  match a, b with
-  | DInt x, DInt y => Some (x ?= y)
-  | DInt x, DDec g => cmp_z_float x g
-  | DDec f, DInt y => option_map CompOpp (cmp_z_float y f)
-  | DDec f, DDec g => cmp_float f g
+  match rank a, rank b with
+  | Some x, Some y => Some (exr_cmp x y)
   | _, _ => None
   end.
 
@@ -119,11 +133,15 @@ Fixpoint veq (a b : dval) {struct a} : bool :=
        | _, _ => false
        end) l m
   | DSet l, DSet m =>
-    (Nat.eqb (length l) (length m)) && forallb (fun x => existsb (fun y => veq x y) m) l
+    (* CPython: equal sizes and every element of l is in m; for duplicate-free
+       representations (the invariant of sets, C06_set_nodup) that is mutual inclusion,
+       which is what the model states *)
+    forallb (fun x => existsb (fun y => veq x y) m) l &&
+    forallb (fun y => existsb (fun x => veq x y) l) m
   | DMap l, DMap m =>
-    (Nat.eqb (length l) (length m)) &&
     forallb (fun kv => let '(k, v) := kv in
-                       existsb (fun kv' => veq k (fst kv') && veq v (snd kv')) m) l
+                       existsb (fun kv' => veq k (fst kv') && veq v (snd kv')) m) l &&
+    forallb (fun kv' => existsb (fun kv => let '(k, v) := kv in veq k (fst kv') && veq v (snd kv')) l) m
   | _, _ => false
   end.
 
